@@ -412,6 +412,15 @@ func init() {
 				{Src: "link", Dst: "/etc/disklink.conf", Type: "config", Owner: "app", Group: "grp"},
 				{Src: "links/plain", Dst: "/opt/plainlink-owned", Owner: "app", MTime: EntryMTime},
 				{Src: "links/{dot,plain}", Dst: "/opt/linkglob-owned", Owner: "app", Group: "grp", MTime: EntryMTime},
+				// names that are not plain text, picked up from disk
+				{Src: "oddnames", Dst: "/opt/odd-tree", Type: "tree"},
+				{Src: "oddnames/", Dst: "/opt/odd-dir"},
+				{Src: "oddnames/*", Dst: "/opt/odd-glob"},
+				{Src: "oddnames/c*", Dst: "/etc/odd-conf", Type: "config"},
+				// two names of one file; a symbolic link to a directory as source
+				{Src: "hardlinks", Dst: "/opt/hardlinks", Type: "tree"},
+				{Src: "hardlinks/*.bin", Dst: "/opt/hardlinks-glob"},
+				// (the link itself as source - no trailing slash, or as a tree - has no documented meaning: not judged)
 			}
 			for _, s := range []Setting{sets[0], {Name: "umask=077", Umask: 0o077}, {Name: "mtime=unset", MTime: "unset"}} {
 				for _, e := range odd {
